@@ -738,3 +738,31 @@ Proof.
   - cbn [ex_wc wc_keys map snd]. repeat constructor; cbn [In]; intuition discriminate.
   - cbn [ex_wc wc_keys map fst In]. unfold UNKNOWN. intuition discriminate.
 Qed.
+
+(* ------------------------------------------------------------------ a connection closes while requests are outstanding *)
+
+Lemma closed_discharges : forall g m es p,
+  1 <= g_alpha g ->
+  let s := fst (run g (st0 m) es) in
+  aget p (conn s) <> None ->
+  let s' := fst (fst (step g s (EClosed p))) in
+  aget p (peers s') = None /\ futs s' = futs s /\ pdial s' = pdial s /\
+  forall q x, aget q (eng s') = Some x -> In p (waiting x) ->
+    owes_dial s' (negb (is_track x)) q p \/ owes_fut s' (negb (is_track x)) q p.
+Proof.
+  intros g m es p Ha s Hc s'.
+  assert (G : GI s) by (apply run_GI; [exact Ha | apply GI_st0]).
+  assert (G' : GI s') by (apply step_GI; assumption).
+  assert (E : s' = disconnect_peer (w_conn s (adel p (conn s))) p None).
+  { subst s'. cbn [step]. destruct (aget p (conn s)); [reflexivity | congruence]. }
+  destruct G as [Hl Hcv Hf].
+  assert (Hl0 : lookups_live (w_conn s (adel p (conn s)))) by exact Hl.
+  assert (Hc0 : covered (w_conn s (adel p (conn s))) []) by exact Hcv.
+  destruct (disconnect_spec (w_conn s (adel p (conn s))) p None [] Hl0 Hc0) as (_ & _ & D1 & _ & _ & D2 & D3 & _).
+  { intros z []. }
+  rewrite <- E in D1, D2, D3.
+  split; [exact D1 |]. split; [exact D3 |]. split; [exact D2 |].
+  intros q x A W. destruct G' as [_ Hcv' _]. destruct (Hcv' q x p A W) as [O | []].
+  destruct O as [O | [O | O]]; [left; exact O | | right; exact O].
+  destruct O as (acts & sid & a & K & _). rewrite D1 in K. discriminate.
+Qed.
